@@ -75,7 +75,8 @@ fn nontrivial(prop: &str, o: &BOut) -> bool {
 // strategies
 
 fn leaf_strategy() -> BoxedStrategy<Spec> {
-    let len = prop_oneof![6 => 0usize..=8, 3 => 9usize..=48, 1 => Just(0usize)];
+    // mostly small; rarely a leaf above the thresholds at which size-dependent fast paths could switch (256, 4 KiB, 16 KiB, 64 KiB)
+    let len = prop_oneof![60 => 0usize..=8, 30 => 9usize..=48, 10 => Just(0usize), 2 => Just(300usize), 1 => Just(4100usize), 1 => Just(16400usize), 1 => Just(65600usize)];
     (0u8..NKINDS, len, any::<u8>(), any::<u8>())
         .prop_map(|(kind, n, seed, pre)| Spec::Leaf { kind, data: (0..n).map(|i| seed.wrapping_add((i * 7) as u8) | 1).collect(), pre })
         .boxed()
@@ -90,12 +91,12 @@ fn limit_for(inner: &Spec, sel: u32) -> usize {
         0 => 0,
         1 => rem / 2,
         2 => rem,
-        3 => rem + 1,
+        3 => rem.saturating_add(1),
         4 => usize::MAX,
         5 => chunk,
         6 => chunk.saturating_sub(1),
         7 => chunk + 1,
-        _ => (sel as usize / 9) % (rem + 2),
+        _ => (sel as usize / 9) % (rem.min(1 << 20) + 2),
     }
 }
 
@@ -190,6 +191,9 @@ fn cut_spec(bytes: &[u8], mask: u32, before: usize, after: usize, kind0: u8, wra
         if let Spec::Leaf { kind, .. } = s {
             if *kind % NKINDS == 10 {
                 *kind = 7;
+            }
+            if *kind % NKINDS == 13 {
+                *kind = 12;
             }
         }
     }
